@@ -447,28 +447,26 @@ def readDigits (tbl : List Char) : List Nat → Option (List Nat)
     | some d, some ds => some (d :: ds)
     | _, _ => none
 
-/-- integer-level decoder (everything of `GridReference(string)` except the floating accumulation) -/
-def decodeInt (s : List Nat) : Except Err Dec := do
-  let grid := s.filter (fun c => !isSpace c)
-  if grid.length > 2 + 2 * osgb_maxprec.toNat then throw "too long"
-  let len := grid.length
-  if len < 2 then throw "too short"
-  if len % 2 ≠ 0 then throw "odd"
+/-- one iteration of the letter loop: `yh = yh·g + g − i/g − 1; xh = xh·g + i%g` on the state `(xh, yh)` -/
+def letterStep (st : Int × Int) (i : Nat) : Int × Int :=
   let g := osgb_tilegrid
-  let mut xh : Int := 0
-  let mut yh : Int := 0
-  for c in grid.take 2 do
-    match lookup letters c with
-    | none => throw "illegal prefix"
-    | some i =>
-      yh := yh * g + g - ((i : Int) / g) - 1
-      xh := xh * g + ((i : Int) % g)
-  xh := xh - osgb_tileoffx
-  yh := yh - osgb_tileoffy
-  let prec1 := (len - 2) / 2
-  match readDigits digits ((grid.drop 2).take prec1), readDigits digits (grid.drop (2 + prec1)) with
-  | some xd, some yd => pure ⟨xh, yh, xd, yd, prec1⟩
-  | _, _ => throw "non-digit"
+  (st.1 * g + ((i : Int) % g), st.2 * g + g - ((i : Int) / g) - 1)
+
+/-- integer-level decoder (everything of `GridReference(string)` except the floating accumulation);
+the two iterations of `while (p < 2)` are written out -/
+def decodeInt (s : List Nat) : Except Err Dec :=
+  let grid := s.filter (fun c => !isSpace c)
+  if grid.length > 2 + 2 * osgb_maxprec.toNat then .error "too long" else
+  if grid.length < 2 then .error "too short" else
+  if grid.length % 2 ≠ 0 then .error "odd" else
+  match lookup letters (grid.getD 0 0), lookup letters (grid.getD 1 0) with
+  | some i, some j =>
+    let st := letterStep (letterStep (0, 0) i) j
+    let prec1 := (grid.length - 2) / 2
+    match readDigits digits ((grid.drop 2).take prec1), readDigits digits (grid.drop (2 + prec1)) with
+    | some xd, some yd => .ok ⟨st.1 - osgb_tileoffx, st.2 - osgb_tileoffy, xd, yd, prec1⟩
+    | _, _ => .error "non-digit"
+  | _, _ => .error "illegal prefix"
 
 inductive Rev where
   | nan
